@@ -88,6 +88,20 @@ def payload_len(rng, thorough=False, maxlen=None):
     return n
 
 
+# payloads whose frame checksum bytes are 00 00 / 1b 1b / ff ff / 1b 00 / 00 1b / 00 01 (boundary values of the trailer)
+SPECIAL_CRC_PAYLOADS = [bytes.fromhex(x) for x in ["7605a45e", "7605cf5a", "7605bdaf", "76052bff", "760540fb", "7605ce8e"]]
+
+
+def crc_kermit(data):
+    """CRC-16/KERMIT: same polynomial as X.25, init 0, no final xor (a sibling algorithm some meters use)"""
+    c = 0
+    for b in data:
+        c ^= b
+        for _ in range(8):
+            c = (c >> 1) ^ 0x8408 if c & 1 else c >> 1
+    return c
+
+
 def payload(rng, n=None, thorough=False, maxlen=None):
     if n is None:
         n = payload_len(rng, thorough, maxlen)
@@ -163,6 +177,11 @@ def noise(rng, maxlen=40):
         g += bytes([0x1b] * rng.randint(4, 9)) + bytes([1] * rng.randint(0, 3))
     elif t < 0.68:
         g += bytes([0x1b] * 4 + [0x1a]) + bytes(rng.getrandbits(8) for _ in range(rng.randint(0, 2)))     # unfinished end sequence
+    elif t < 0.72:
+        g += bytes([0x1b] * rng.randint(250, 300))                 # a run longer than any 8-bit counter
+    elif t < 0.76:
+        x = rng.choice([0x02, 0x03, 0x00, 0xff])
+        g += bytes([0x1b] * 4 + [x] * 4) + bytes(rng.getrandbits(8) for _ in range(rng.randint(0, 6)))   # escape with four equal bytes (v2 start = 02020202)
     return bytes(g)
 
 
@@ -186,7 +205,8 @@ def bad_frame(rng, p):
         cut = (rng.randint(0, len(p)) // 4) * 4
         p1, p2 = p[:cut], p[cut:]
         x = rng.choice([0x02, 0x03, 0x04, 0x05, 0x00, 0x1c, 0x7f, 0xff])
-        b2 = START + esc(p1) + bytes([0x1b] * 4 + [x] + [rng.choice([0, 0, rng.getrandbits(8)]) for _ in range(3)]) + esc(p2)
+        rest = [x] * 3 if rng.random() < 0.3 else [rng.choice([0, 0, rng.getrandbits(8)]) for _ in range(3)]
+        b2 = START + esc(p1) + bytes([0x1b] * 4 + [x] + rest) + esc(p2)
         pd = (4 - len(b2) % 4) % 4
         return end_seq(b2 + bytes(pd), pd)
     if kind == 13:
@@ -204,7 +224,7 @@ def bad_frame(rng, p):
         return bytes(f)
     if kind == 12:                                  # checksum manipulations on an otherwise canonical frame
         f = bytearray(frame(p))
-        how = rng.randrange(5)
+        how = rng.randrange(6)
         if how == 0 and f[-1] != f[-2]:
             f[-1], f[-2] = f[-2], f[-1]             # byte order swapped
         elif how == 1:
@@ -216,8 +236,11 @@ def bad_frame(rng, p):
         elif how == 3:
             c = crc16(bytes(f[:-4]))                # end marker / pad count not covered
             f[-2], f[-1] = c & 0xFF, c >> 8
-        else:
+        elif how == 4:
             f[-1] ^= 0xFF
+        else:
+            c = crc_kermit(bytes(f[:-2]))                   # checksum of a sibling algorithm (CRC-16/KERMIT)
+            f[-2], f[-1] = c & 0xFF, c >> 8
         if bytes(f) == frame(p):
             f[-1] ^= 1
         return bytes(f)
@@ -602,7 +625,16 @@ def close_message(rng, chunks, good_crc=True):
     c = crc16(pre)
     c = ((c & 0xFF) << 8) | (c >> 8)          # byte-swapped
     if not good_crc:
-        if rng.random() < 0.3 and (c & 0xFF) != (c >> 8):
+        r = rng.random()
+        if r < 0.15 and c >= 256:
+            # the checksum field shortened to one byte although the dropped byte is not zero (low or high byte kept)
+            return pre + bytes([0x62, (c & 0xFF) if r < 0.08 else (c >> 8)]) + b"\x00"
+        if 0.4 <= r < 0.55:
+            k = crc_kermit(pre)                              # a sibling checksum algorithm (byte-swapped like the real one)
+            k = ((k & 0xFF) << 8) | (k >> 8)
+            if k != c:
+                return pre + bytes([0x63]) + k.to_bytes(2, "big") + b"\x00"
+        if r < 0.4 and (c & 0xFF) != (c >> 8):
             c = ((c & 0xFF) << 8) | (c >> 8)      # the two checksum bytes exchanged
         else:
             c ^= 1 << rng.randrange(16)
@@ -649,14 +681,20 @@ HUGE_TLFS = [bytes.fromhex(x) for x in [
     "e00a", "d00a", "c3", "42", "4f", "10", "20", "30", "00", "81", "f0", "8f80", "8110", "f1808080808080808080808000"]]
 # zero-padded TLFs of 256 / 257 / 300 bytes (list of 6, list of 7, octet string of 4, unsigned of 1): 32-bit values in a
 # field longer than any 8-bit byte counter; placed FIRST so that the quick tier uses them too
-HUGE_TLFS = [tlf_bytes(7, 6, 256), tlf_bytes(7, 7, 257), tlf_bytes(0, 4 + 256, 256), tlf_bytes(6, 1 + 300, 300)] + HUGE_TLFS
+HUGE_TLFS = [tlf_bytes(7, (1 << 29) + 1, 8), tlf_bytes(7, 1 << 30, 8), tlf_bytes(7, (1 << 31) + 2, 8), tlf_bytes(7, 6, 256), tlf_bytes(7, 7, 257), tlf_bytes(0, 4 + 256, 256), tlf_bytes(6, 1 + 300, 300)] + HUGE_TLFS
 
 
 def mutate_message(rng, m):
     """mutate the pre-CRC chunks of a message; returns (new chunk list, description)"""
     ch = [bytes(c) for c in m["chunks"]]
-    kind = rng.randrange(15)
+    kind = rng.randrange(16)
     i = rng.randrange(len(ch))
+    if kind == 15:
+        # the last field of the body structure left out and the structure's arity reduced accordingly (77 -> 76, ...)
+        if len(ch) > 7 and ch[6][:1] in (b"\x76", b"\x77", b"\x71") and len(ch[6]) == 1:
+            ch[6] = bytes([ch[6][0] - 1])
+            del ch[-1]
+        return ch, "drop-last-field"
     if kind == 14:
         # a one-byte unsigned (62 xx: choice tag of a time, group number, unit, ...) re-encoded in 2 / 3 / 4 data bytes:
         # same number, wrong field type
@@ -770,6 +808,12 @@ def gen_mutant(rng):
         if rng.random() < 0.4:
             return data + bytes(rng.randint(1, 5)), "raw-extend-zeros"      # fill bytes after the last message
         return data + rnd_bytes(rng, 1, 4), "raw-extend"
+    if r < 0.33 and len(msgs) >= 2:
+        # 1-3 zero "fill" bytes between two messages
+        j = rng.randrange(1, len(msgs))
+        out = b"".join(close_message(rng, m["chunks"]) for m in msgs[:j]) + bytes(rng.randint(1, 3)) + \
+            b"".join(close_message(rng, m["chunks"]) for m in msgs[j:])
+        return out, "zeros-between-messages"
     if r < 0.30:
         # cut exactly at a field boundary (in particular: before the checksum field, after a complete list entry)
         j = rng.randrange(len(msgs))
